@@ -473,10 +473,16 @@ func c14RacePass(t *testing.T, r *h.Run, inputs []c14Input, ops []c14Op) {
 		if first {
 			force = true
 			for a := 0; a < n; a++ {
-				runSet([]int{a, a})
+				// six at once: library code under the operations (reflection, fmt) synchronises
+				// incidentally, which can order two goroutines' first uses; more goroutines
+				// leave fewer such accidents
+				runSet([]int{a, a, a, a, a, a})
 			}
 			force = false
-			first = false
+			// first stays true: state that is initialised lazily per input (a cache keyed by
+			// what the input contains) is only racy on the first use for that input, so
+			// every input starts with concurrent scans and each operation against itself,
+			// in every shard
 		}
 		for a := 0; a < n; a++ {
 			for b := 0; b < n; b++ {
